@@ -256,7 +256,7 @@ func receiver(wd *world, n int, sub uint64) {
 		if simrt.Dead() {
 			break
 		}
-		simrt.Progress()
+		sim.Op()
 		if wd.nWorkers > 1 && r.Intn(8) == 0 {
 			sendSharedBytes(wd, r)
 			continue
@@ -444,7 +444,7 @@ func recvOther(wd *world, r *sim.Rand, single []byte) {
 }
 
 func processOther(j *otherJob) {
-	simrt.Progress()
+	sim.Op()
 	if genGet() != j.gen {
 		simrt.Count(cOverwrite)
 	}
@@ -520,7 +520,7 @@ func sendSharedBytes(wd *world, r *sim.Rand) {
 }
 
 func processSharedBytes(bj *bytesJob) {
-	simrt.Progress()
+	sim.Op()
 	v := bj.mk()
 	sim.Guard("panic", func() { callUnmarshal(v, bj.up, bj.b) })
 }
@@ -608,7 +608,7 @@ func worker(wd *world, id int, sub uint64, extra int) {
 }
 
 func localOp(wd *world, id int, r *sim.Rand, bw *bandWatch) {
-	simrt.Progress()
+	sim.Op()
 	switch r.Intn(5) {
 	case 4:
 		marshalOnArena(wd, id, r)
@@ -629,7 +629,7 @@ func frameSig(phy *lorawan.PHYPayload) string { return sim.DeepSig(phy) }
 // decrypt - on the frame decoded from reused memory and on the private
 // reference; every observable must agree (I2, I3, I5) and equal the truth.
 func processFrame(j *job, r *sim.Rand) {
-	simrt.Progress()
+	sim.Op()
 	simrt.Count(cWork)
 	if genGet() != j.gen {
 		simrt.Count(cStaleBefore)
@@ -1178,13 +1178,57 @@ func observeBand(b band.Band) string {
 	return s
 }
 
+var cBandScribble = simrt.RegisterCounter("fault_owner_edits_band_results_it_was_handed")
+
+func ownerWriteIdx(s []int, r *sim.Rand) {
+	if r.Intn(2) == 0 {
+		s = s[:cap(s)]
+	}
+	for i := range s {
+		s[i] = 64 + i
+	}
+}
+
+func ownerWriteU32(s []uint32) {
+	for i := range s {
+		s[i] = 1
+	}
+}
+
+func ownerWriteMask(m *lorawan.ChMask) {
+	for i := range m {
+		m[i] = !m[i]
+	}
+}
+
 func (bw *bandWatch) step(r *sim.Rand) {
 	if bw.mine == nil || bw.ref == nil {
 		return
 	}
 	simrt.Count(cBandOps)
 	n := len(bw.mine.GetUplinkChannelIndices())
-	switch r.Intn(3) {
+	switch r.Intn(4) {
+	case 3:
+		// the owner of one instance edits results it was handed (sorts, filters
+		// in place, appends): they are its own memory
+		simrt.Count(cBandScribble)
+		for _, s := range [][]int{bw.mine.GetUplinkChannelIndices(), bw.mine.GetStandardUplinkChannelIndices(), bw.mine.GetCustomUplinkChannelIndices(),
+			bw.mine.GetEnabledUplinkChannelIndices(), bw.mine.GetDisabledUplinkChannelIndices(), bw.mine.GetEnabledUplinkDataRates()} {
+			ownerWriteIdx(s, r)
+		}
+		if cf := bw.mine.GetCFList(band.LoRaWAN_1_0_4); cf != nil {
+			switch pl := cf.Payload.(type) {
+			case *lorawan.CFListChannelPayload:
+				ownerWriteU32(pl.Channels[:])
+			case *lorawan.CFListChannelMaskPayload:
+				for i := range pl.ChannelMasks {
+					ownerWriteMask(&pl.ChannelMasks[i])
+				}
+			}
+		}
+		for _, pl := range bw.mine.GetLinkADRReqPayloadsForEnabledUplinkChannelIndices([]int{0, 1, 2}) {
+			_ = pl
+		}
 	case 0:
 		bw.mine.AddChannel(uint32(867100000+200000*r.Intn(20)), 0, 5)
 	case 1:
